@@ -626,6 +626,8 @@ def r4_addresses(program, folder, rep):
     ps = formals(fn)
     rets = [T.term(r.value) for r in returns_of(fn) if r.value is not None]
     ok = False
+    kept = []
+    reported_kept = False
     if len(rets) == 1 and rets[0][0] == "tuple" and len(rets[0]) == 4:
         e = reify(plain(rets[0][2]))
         for n_ in ast.walk(e):
@@ -649,7 +651,24 @@ def r4_addresses(program, folder, rep):
         ok = ok and len(base) == 1 and base[0][2][:2] == (
             ("const", "sv"), ("const", "vcpu_base")) and \
             list(base[0][2][2:4]) == [("param", ps[2]), ("param", ps[3])]
-    rep.check(ok, "C07-R4", qual(fn), "per-core field address = vcpu_base + "
+        # ... computed from what the chip says now: nothing kept on the
+        # controller from an earlier call (another chip, another core, a
+        # machine booted since) enters the address
+        kept = sorted(set(
+            st[2] for st in subterms(plain(rets[0][2]))
+            if st[0] == "attr" and st[1] == SELF and
+            st[2] not in ("structs", "read_struct_field")))
+        if kept:
+            ok = False
+            reported_kept = True
+            rep.bad("C07-R4", qual(fn), "address from kept state %s" % kept,
+                    "the per-core field address is computed from self.%s, a "
+                    "value kept on the controller between calls, not only "
+                    "from the chip and core asked about: a later call for "
+                    "another chip or core (or after a re-boot) reads and "
+                    "writes the wrong block" % ", self.".join(kept), fn)
+    rep.check(ok or reported_kept, "C07-R4", qual(fn),
+              "per-core field address = vcpu_base + "
               "vcpu.size * p + field.offset",
               construct="vcpu field address", node=fn)
     # fill
